@@ -91,3 +91,11 @@ package vgirpc
 //@   ensures [wfelems] forall e *list.Element :: e != nil && e.list == c.order ==>
 //@         typeof(e.Value) == *nonceEntry && entryOf(e) != nil && has(c.entries, entryOf(e).nonce) && c.entries[entryOf(e).nonce] == e
 //@   ensures [remembered] result ==> has(c.entries, nonce)
+
+// The field grammars of a proof header (kid, timestamp, nonce, origin, MAC): the patterns the
+// code compiles denote exactly these reference languages.
+//@ regex proofKidRe [C25] == `\A[A-Za-z0-9_-]{1,64}\z`
+//@ regex proofTsRe [C25] == `\A[0-9]{1,20}\z`
+//@ regex proofNonceRe [C25] == `\A[A-Za-z0-9_-]{22}\z`
+//@ regex proofOriginRe [C25] == `\A[A-Za-z0-9._:/-]{1,255}\z`
+//@ regex proofMacRe [C25] == `\A[A-Za-z0-9_-]{43}\z`
